@@ -6,3 +6,5 @@ def run(ck):
     run_tables(ck, 'C11.flat_line', cases.flat_line)
     run_tables(ck, 'C11.flat_line', cases.flat_line_fractional)
     run_carrier_sweep(ck, 'C11.flat_line', cases.flat_line, n_max=4)
+    # steps that are not whole seconds, with the instants in every container that can carry them (epoch numbers with a fraction included)
+    run_carrier_sweep(ck, 'C11.flat_line', cases.flat_line_fractional, data=False, n_max=6, per_class=3)
